@@ -45,7 +45,7 @@ pub fn lanes_of(id: &str) -> Vec<(&'static str, LaneFn)> {
         "C16" => vec![("paging", c16::paging)],
         "C17" => vec![("matrix", c17::matrix_lane)],
         "C18" => vec![("table", c18::table)],
-        "C19" => vec![("requests", c19::requests), ("responses", c19::responses), ("envelope", c19::envelope)],
+        "C19" => vec![("requests", c19::requests), ("responses", c19::responses), ("envelope", c19::envelope), ("attached_controls", c19::attached_controls)],
         "C20" => vec![("random", c20::random), ("errors", c20::errors)],
         _ => vec![],
     }
